@@ -264,6 +264,12 @@ def check_dispatch(ctx, rule_prefix="R", orders=ORDERS, want_roles=True, kaisers
                             else: R, r = run_single(repo, order, iscsd, backend, kaiser, disp == "single")
                         except Unknown as ex:
                             ctx.unknown(f"{rule_prefix}1-dispatch", construct, str(ex), where); continue
+                        # one call site reached on several forked paths of the dispatcher is one kernel call
+                        uniq_ = {}
+                        for kc_ in R.kcalls: uniq_.setdefault((kc_[0], id(kc_[3])), kc_)
+                        if len(uniq_) == 1 and len(R.kcalls) > 1 and all(vkey(tuple(a_ if not isinstance(a_, (ListVal, DictVal, Obj, LocalArr)) else repr(a_) for a_ in kc_[1])) ==
+                                                                          vkey(tuple(a_ if not isinstance(a_, (ListVal, DictVal, Obj, LocalArr)) else repr(a_) for a_ in R.kcalls[0][1])) for kc_ in R.kcalls):
+                            R.kcalls = [R.kcalls[0]]
                         ctx.call_sites += len(R.kcalls)
                         fam = FAMILY[order]
                         want = kernel_key(fam, "csd" if iscsd else "auto", backend)
@@ -479,6 +485,7 @@ class _FnInfo:
                     continue       # a function being called (module-level / builtin)
                 else:
                     deps.add(nm)
+        s.last_seen = set(seen)
         return deps
 
 
@@ -861,6 +868,24 @@ def check_single_fields(ctx, rule="R8-single-bin", only=None):
             if A.ndim != 1 or A.axes[0][1].as_int() != 1:
                 ctx.violated(rule, c, f"single-bin field {k} does not have length 1", where); continue
             if is_opaque(el) or isinstance(el, PV) or to_x(el) is None:
+                if k == "navg":
+                    # the count of averaged segments is a function of the segmentation alone: a value that (also) flows from the window or the data is
+                    # not the number of segments (def-use slice of the expression stored under 'navg' against the one stored under 'K')
+                    info = _FnInfo(fn)
+                    exprs = {}
+                    for nd in ast.walk(fn):
+                        if isinstance(nd, ast.Dict):
+                            for kk, vv in zip(nd.keys, nd.values):
+                                if isinstance(kk, ast.Constant) and kk.value in ("navg", "K"): exprs[kk.value] = vv
+                    if "navg" in exprs and "K" in exprs:
+                        info.slice_deps(exprs["navg"], stop=MODULE_NAMES); dn = set(info.last_seen) - MODULE_NAMES
+                        info.slice_deps(exprs["K"], stop=MODULE_NAMES); dk = set(info.last_seen) - MODULE_NAMES
+                        # intermediate values the count flows through that the number of starts does not (window samples, window sums, data)
+                        windowish = {"w", "wloc", "S1", "S2", "win_func", "alpha_val", "MXX", "MYY", "mu_r", "mu_i", "M2", "x1", "x2"}
+                        extra = sorted(x_ for x_ in dn - dk if x_ in windowish or x_ in info.loop_assigned)
+                        if extra:
+                            ctx.violated(rule, c, f"navg is computed from {extra[:6]}, which the number of segments K does not depend on: the n of the error formulas is not the "
+                                         "number of segments actually averaged", where); continue
                 ctx.unknown(rule, c, f"field {k}: {el!r}"[:200], where); continue
             ctx.compare(rule, c, to_x(el), want, where)
         if only is not None and "D" not in only: continue
@@ -1100,3 +1125,76 @@ def check_statistics_finite(ctx, rule="R8-statistics-made-finite"):
                 elif unk: ctx.unknown(rule, c, unk, where)
                 else: ctx.holds(rule, c, "made finite (or tested finite) on every path", where)
     ctx.need("data statistics of the assembled result", n_ob, 7)
+
+
+# ---------------------------------------------------------------------------- the result object keeps every per-bin field aligned with the others
+RESULT_FIELDS = ("f", "r", "b", "L", "K", "navg", "O", "i", "XX", "YY", "XY", "S12", "S2", "M2", "compute_t")
+
+
+def check_result_fields_aligned(ctx, rule="R-result-fields-aligned"):
+    """SpectrumResult.__init__ stores, for every per-bin field, element j of the array it was given (dtype normalisation aside) - or, on a path that
+    re-orders the bins, the SAME re-ordering of every field.  A field left out of a re-ordering is misaligned with the others (XY against XX, YY: the
+    coherence leaves [0, 1])."""
+    from .table import CLS
+    repo = ctx.repo
+    key = CLS + ".__init__"; fn = repo.get(key); where = repo.where(key, fn); ctx.analysed(key)
+    nf = X.var("nf"); KIND.setdefault("nf", "nat")
+    from .symalg import ARRAY_KIND
+    data = DictVal()
+    for k in RESULT_FIELDS:
+        ARRAY_KIND["in." + k] = "complex" if k == "XY" else "real"
+        data.d[k] = ArrParam("in." + k, kind="complex" if k == "XY" else "real", shape=(nf,))
+    I = Interp(repo)
+    perms = []
+
+    def lib(I_, name, args, kw, st, n):
+        if name in ("numpy.argsort", "numpy.lexsort"):
+            p_ = ArrParam(f"perm{len(perms)}", shape=(nf,)); perms.append(p_); lm.INT_ARRAYS.add(p_.name)
+            return p_
+        return NotImplemented
+    I.hooks["lib"] = lib
+    me = Obj(CLS)
+    try:
+        I.call_func(Func(key, fn), [me, data, DictVal({}), True, X.var("fs")], {}, St(), None)
+    except Unknown as ex:
+        ctx.unknown(rule, key, str(ex), where); return
+    d = me.attrs.get("_data")
+    if not isinstance(d, DictVal):
+        ctx.unknown(rule, key, f"self._data not recognised: {d!r}"[:200], where); return
+    from .values import _all_conds
+    conds = []
+    for k in RESULT_FIELDS:
+        for c_ in (_all_conds(d.d.get(k)) if isinstance(d.d.get(k), PV) else []):
+            if c_ not in conds: conds.append(c_)
+    if len(conds) > 6:
+        ctx.unknown(rule, key, f"{len(conds)} undecided conditions govern the stored fields", where); return
+    import itertools
+    n_ok = 0
+    for bits in itertools.product((True, False), repeat=len(conds)):
+        maps = {}
+        for k in RESULT_FIELDS:
+            v = d.d.get(k)
+            for c_, b_ in zip(conds, bits): v = pv_restrict(v, c_, b_) if isinstance(v, PV) else v
+            A = as_arr(v) if isinstance(v, (Arr, ArrParam)) else None
+            if A is None or A.ndim != 1:
+                maps[k] = None; continue
+            jv = A.axes[0][0]
+            bx = to_x(A.body) if not isinstance(A.body, PV) and not is_opaque(A.body) else None
+            ix = None
+            if bx is not None and len(bx.m) == 1 and not bx.p and bx.c == C(1):
+                (at, e), = bx.m.items()
+                if at.tag == "idx" and at.name == "in." + k and e == 1: ix = at.args[0].subst({jv: X.var("_j")})
+            maps[k] = ix
+        path = " & ".join((c_.text if b_ else f"not({c_.text})") for c_, b_ in zip(conds, bits)) or "always"
+        unknown = [k for k, m_ in maps.items() if m_ is None]
+        if unknown:
+            ctx.unknown(rule, f"{key}[{path[:80]}]", f"stored field {unknown[0]} is not an element-wise view of the constructor's array: {d.d.get(unknown[0])!r}"[:300], where); continue
+        ref = maps["XX"]
+        off = [k for k, m_ in maps.items() if not m_.eq(ref)]
+        if off:
+            ctx.violated(rule, f"{key}[{path[:80]}]", f"on the path [{path}] the bins of {', '.join(k for k in RESULT_FIELDS if k not in off)[:120]} are taken at index {ref!r} but those of "
+                         f"{', '.join(off)} at {maps[off[0]]!r}: the fields of one bin no longer belong together", where)
+        else:
+            n_ok += 1
+            ctx.holds(rule, f"{key}[{path[:80]}]", f"all {len(RESULT_FIELDS)} per-bin fields are taken at the same index ({ref!r})", where)
+    ctx.need("paths of SpectrumResult.__init__ with aligned fields examined", n_ok + sum(1 for o in ctx.obs if o["rule"] == rule and o["status"] != HOLDS), 1)
